@@ -11,7 +11,7 @@ from conda_content_trust import authentication as A, common as C, metadata_const
 from vlib import gen_json as G, gen_metadata as GM, gen_mutate as MU, gen_pyvalues as GP, keys, ref_grammar as g, \
     ref_schema, ref_verify as RV
 from vlib.ref_canon import canon, jeq
-from vlib import cfgunit as _cfgunit
+from vlib import cfgunit as _cfgunit, interrupt as _interrupt
 from vlib.runner import Unit, Violation
 
 PROPERTY = "C16"
@@ -171,6 +171,22 @@ class _TZ:
 TZS = [None, "UTC", "XXX-14", "YYY+11:30", "Pacific/Kiritimati", "America/St_Johns"]
 
 
+def _scribble(md):
+    """in-place edits of a result by the caller that owns it"""
+    if type(md) is not dict:
+        return
+    d = md.get("delegations")
+    if type(d) is dict:
+        for role in list(d.values()):
+            if type(role) is dict:
+                if type(role.get("pubkeys")) is list:
+                    role["pubkeys"].append("draft - not a key")
+                role["threshold"] = 0
+        d["verif-probe-role"] = {"pubkeys": "to be filled in", "threshold": None}
+    md["version"] = "draft"
+    md["verif-probe"] = [1]
+
+
 def check_valid(case):
     f, kwargs, given = _invoke(case["which"], case["args"])
     before = copy.deepcopy(kwargs)
@@ -181,6 +197,22 @@ def check_valid(case):
     if not jeq(kwargs, before):
         raise Violation("%s modified its arguments" % f.__name__, bucket="arguments mutated")
     v = _check_result(f.__name__, r, given, case["which"] == "root")
+    # The caller owns the result: it edits it in place (adds a delegation to the draft, empties a key list) and builds again
+    # with the same arguments.  The second result must be the first one again (default times may have moved on).
+    first = copy.deepcopy(r)
+    _scribble(r)
+    with _TZ(case.get("tz")):
+        kind2, r2 = _call(f, copy.deepcopy(before))
+    if kind2 != "ok":
+        raise Violation("%s raised %s on valid arguments after the caller edited the previous result in place: %s"
+                        % (f.__name__, type(r2).__name__, str(r2)[:120]), bucket="outcome depends on earlier calls")
+    _check_result(f.__name__, r2, given, case["which"] == "root")
+    for field in first:
+        if field in ("timestamp", "expiration") and given[field] is OMIT:
+            continue
+        if not jeq(first[field], r2.get(field)):
+            raise Violation("%s: same arguments, second call (after the caller edited the first result in place): %s is %r, was %r"
+                            % (f.__name__, field, r2.get(field), first[field]), bucket="outcome depends on earlier calls")
     omitted = [k for k, x in case["args"].items() if x == OMIT]
     labs = [case["which"], "omitted=%d" % len(omitted), "schema=" + v, "tz=" + ("non-UTC" if case.get("tz") not in (None, "UTC") else "UTC")]
     if given["timestamp"] is not OMIT and given["expiration"] is not OMIT:
@@ -328,4 +360,5 @@ UNITS = [
          essential=["rotated"], doc="builder -> signer -> verifier: three-link root chains and key_mgr delegation"),
     _cfgunit.unit_under_config(PROPERTY, 'valid', exclude=('PYTHONWARNINGS', 'TZ')),
     _cfgunit.unit_under_config(PROPERTY, 'corrupt', exclude=('PYTHONWARNINGS',), closed_stdout=True, n_cases=30),
+    _interrupt.unit_interrupted(PROPERTY, 'corrupt', quick=30, thorough=750, max_points=120),
 ]
